@@ -106,6 +106,8 @@ pub enum PK {
     ClosePrev,
     /// the same tagged message twice in a row, then another one (two equal instalments)
     TagTwice,
+    /// 31 tagged messages: one more than the page limit of the list queries (seeded C05_r11_1)
+    Tag31,
 }
 
 #[derive(Clone, Copy, Debug, PartialEq, Eq, Hash, PartialOrd, Ord, Serialize, Deserialize)]
@@ -651,6 +653,7 @@ impl Cw3Model {
             PK::ExecPrev => vec![exec(&cw3_fixed_multisig::msg::ExecuteMsg::Execute { proposal_id: prev }), tag(0)],
             PK::ClosePrev => vec![exec(&cw3_fixed_multisig::msg::ExecuteMsg::Close { proposal_id: prev }), tag(0)],
             PK::TagTwice => vec![tag(0), tag(0), tag(1)],
+            PK::Tag31 => (0..31).map(tag).collect(),
         }
     }
 
@@ -659,6 +662,7 @@ impl Cw3Model {
             PK::Empty | PK::Pay => 0,
             PK::Tag2 => 2,
             PK::TagTwice => 3,
+            PK::Tag31 => 31,
             _ => 1,
         }
     }
@@ -1352,7 +1356,7 @@ impl Model for Cw3Model {
                     // retryable: a Passed proposal whose messages can be delivered must be executable by an authorised caller
                     if let Some(po) = pre.props.iter().find(|p| p.id == *id) {
                         let pr = &r.props[(*id - 1) as usize];
-                        let deliverable = matches!(pr.kind, PK::Empty | PK::Tag1 | PK::Tag2 | PK::TagTwice) && !w.failing.contains(&sink());
+                        let deliverable = matches!(pr.kind, PK::Empty | PK::Tag1 | PK::Tag2 | PK::TagTwice | PK::Tag31) && !w.failing.contains(&sink());
                         if po.status == St::Passed && !pr.executed && deliverable && self.authorised(&r, Some(*by)) {
                             v.push(Violation::new("C05.passed_proposal_is_executable", format!("{a:?} refused: {}", out_tx.as_ref().map(|o| o.err()).unwrap_or_default())));
                         }
